@@ -447,4 +447,7 @@ def run(tier, seed):
                                    what="a line whose last substantive change was not a session's is listed for a session")
     n = 64 if tier == "quick" else 2000
     phase_walks(res, [seed * 100000 + i for i in range(n)], 25 if tier == "quick" else 40)
+    if res.broken and not res.violations:
+        phase_walks(res, [seed * 100000 + 50000 + i for i in range(192)], 40)
+        res.extra["search"] = "192 extra random walks of length 40 against the content oracle"
     return res.finish()
